@@ -509,7 +509,76 @@ def r2_6(repo: Repo) -> RuleResult:
     return rr
 
 
-RULES = [r2_1, r2_2, r2_3, r2_4, r2_5, r2_6]
+def r2_7(repo: Repo) -> RuleResult:
+    """fit can return the estimator only if it returns at all: on no path through fit / fit_transform (and the
+    non-compiled helpers they reach) is a local read before it is assigned."""
+    from .common import definite_assignment_over
+
+    rr = RuleResult("R2.7", "every local read on a fit / fit_transform path is assigned on all paths (no parameter setting makes fit raise UnboundLocalError)", floor=60)
+    return definite_assignment_over(repo, rr, exported_estimators(repo), ("fit", "fit_transform"),
+                                    "fit raises UnboundLocalError for the parameter settings / input formats that take that path")
+
+
+def _alpha_block(loop: ast.For, f: Func) -> str:
+    """Text of a loop's target and body with the function's locals named by first occurrence (a, b, c...)."""
+    import copy
+    from .common import _assigned_names
+
+    local = _assigned_names(f) - set(f.params)
+    order: Dict[str, str] = {}
+
+    class R(ast.NodeTransformer):
+        def visit_Name(self, node):
+            if node.id in local:
+                if node.id not in order:
+                    order[node.id] = "v%d" % len(order)
+                return ast.copy_location(ast.Name(id=order[node.id], ctx=node.ctx), node)
+            return node
+
+    tgt = norm(R().visit(copy.deepcopy(loop.target)))
+    body = [norm(R().visit(copy.deepcopy(st))) for st in loop.body]
+    return "for %s in ...:\n" % tgt + "\n".join(body)
+
+
+def r2_8(repo: Repo) -> RuleResult:
+    """Where fit and transform each carry their own copy of the loop that turns items into columns through the fitted
+    dictionaries, the two copies must be the same loop (up to the names of locals and what they iterate over)."""
+    rr = RuleResult("R2.8", "duplicated look-up loops of fit and transform (same fitted dictionaries) have the same body", floor=1)
+    for c in exported_estimators(repo):
+        fit, tr = repo.resolve_method(c, "fit"), repo.resolve_method(c, "transform")
+        if fit is None or tr is None or fit is tr:
+            continue
+
+        def loops(f: Func):
+            out = []
+            for n in walk_no_nested(f.node):
+                if isinstance(n, ast.For) and not any(isinstance(x, ast.For) for s_ in n.body for x in ast.walk(s_)):
+                    attrs = frozenset(x.value.attr for x in ast.walk(n) if isinstance(x, ast.Subscript) and is_self_attr(x.value))
+                    if attrs:
+                        out.append((attrs, n))
+            return out
+
+        la, lb = loops(fit), loops(tr)
+        for attrs, n1 in la:
+            mates = [n2 for a2, n2 in lb if a2 == attrs]
+            if len(mates) != 1:
+                continue
+            n2 = mates[0]
+            a, b = _alpha_block(n1, fit), _alpha_block(n2, tr)
+            construct = "look-up loop over %s" % ", ".join(sorted(attrs))
+            if a == b:
+                rr.ok(tr, construct, "fit (line %d) and transform (line %d) copies are the same loop" % (n1.lineno, n2.lineno), n2.lineno)
+            else:
+                import difflib
+
+                d = [l for l in difflib.unified_diff(a.splitlines(), b.splitlines(), lineterm="", n=0) if l[:1] in "+-" and l[:3] not in ("+++", "---")]
+                rr.bad(tr, construct,
+                       "the copy in transform (line %d) differs from the copy in fit (line %d): %s - items are mapped to columns "
+                       "differently by fit_transform and by transform" % (n2.lineno, n1.lineno, d[:4]), n2.lineno)
+    return rr
+
+
+RULES = [r2_1, r2_2, r2_3, r2_4, r2_5, r2_6, r2_7, r2_8]
 
 CLAIM = (
     "R2.1 every normal exit of every estimator's fit is `return self` (CFG); R2.2 fit/fit_transform are one pipeline "
@@ -517,7 +586,7 @@ CLAIM = (
     "arguments and attribute write sets); R2.3 every repository function called from both the fit path and the "
     "transform path of a class gets the same configuration arguments (presence and closed-form equality of bound "
     "arguments, fitted state may replace configuration); R2.4 fit_transform may return its input unchanged only "
-    "where transform can as well; R2.5 sibling branches filling the same accumulator consume their source the same way; R2.6 library data transformations (normalize norm/axis, power exponents, scalings by fitted values) on the transform path also occur on the fit path."
+    "where transform can as well; R2.5 sibling branches filling the same accumulator consume their source the same way; R2.6 library data transformations (normalize norm/axis, power exponents, scalings by fitted values) on the transform path also occur on the fit path; R2.7 definite assignment (CFG dataflow) on every fit / fit_transform path and the non-compiled helpers it reaches; R2.8 fit and transform copies of a look-up loop over the same fitted dictionaries are the same loop (alpha-renamed bodies)."
 )
 NOT_DECIDED = (
     "numerical equality of SVD outputs (u*s vs X @ V^T) and that BPE's incremental training merges equal the "
